@@ -222,6 +222,28 @@ class Neighbor:
     def make_rib(self) -> None:
         self.rib.enable(self.name(), self.adj_rib_in, self.adj_rib_out, set(self._families))
 
+    def own_state(self) -> None:
+        """Give a copy.copy() of a neighbor (a peer accepted from a range) a uid, queues and a RIB of its own.
+
+        The RIB is named after the neighbor (its addresses must be set) and is given the configured routes, like the
+        one of a neighbor read from the configuration.
+        """
+        self.uid = f'{self._GLOBAL["uid"]}'
+        self._GLOBAL['uid'] += 1
+        self.eor = deque()
+        self.asm = dict(self.asm)
+        self.messages = deque(self.messages)
+        self.refresh = deque()
+        self.counter = Counter()
+        self.previous = None
+        self.rib = RIB(name=f'disabled-{self.uid}', adj_rib_in=True, adj_rib_out=True, families=set(), enabled=False)
+        self.make_rib()
+        families = self.families()
+        for route in self.routes:
+            route = self.resolve_self(route)
+            if route.nlri.family().afi_safi() in families:
+                self.rib.outgoing.add_to_rib_watchdog(route)
+
     # will resend all the routes once we reconnect
     def reset_rib(self) -> None:
         self.rib.reset()
